@@ -22,6 +22,8 @@ SubstSuper(nodes, i, parentContent) ==
   IF i > Len(nodes) THEN <<>>
   ELSE LET n == nodes[i]
            one == IF n.t = "super" THEN parentContent
+                  ELSE IF "b" \in DOMAIN n /\ n.t = "if"
+                  THEN << [n EXCEPT !.a = SubstSuper(n.a, 1, parentContent), !.b = SubstSuper(n.b, 1, parentContent)] >>
                   ELSE IF "a" \in DOMAIN n
                   THEN << [n EXCEPT !.a = SubstSuper(n.a, 1, parentContent)] >>
                   ELSE <<n>>
@@ -45,7 +47,9 @@ Inline(P, nodes, i, ov, fuel) ==
                          THEN Inline(P, SubstSuper(OverrideOf(ov, n.name).a, 1, own), 1, <<>>, fuel - 1)
                          ELSE own
                     [] n.t = "super" -> <<>>
-                    [] OTHER -> IF "a" \in DOMAIN n
+                    [] OTHER -> IF "b" \in DOMAIN n /\ n.t = "if"
+                                THEN << [n EXCEPT !.a = Inline(P, n.a, 1, ov, fuel - 1), !.b = Inline(P, n.b, 1, ov, fuel - 1)] >>
+                                ELSE IF "a" \in DOMAIN n
                                 THEN << [n EXCEPT !.a = Inline(P, n.a, 1, ov, fuel - 1)] >>
                                 ELSE <<n>>
        IN one \o Inline(P, nodes, i + 1, ov, fuel)
@@ -64,6 +68,7 @@ FamilyFree(nodes, i) ==
   IF i > Len(nodes) THEN TRUE
   ELSE /\ nodes[i].t \notin {"include", "block", "super"}
        /\ ("a" \in DOMAIN nodes[i] => FamilyFree(nodes[i].a, 1))
+       /\ (("b" \in DOMAIN nodes[i] /\ nodes[i].t = "if") => FamilyFree(nodes[i].b, 1))
        /\ FamilyFree(nodes, i + 1)
 
 \* theorems checked by TLC on every evaluated family (see Eval_Fam)
